@@ -144,6 +144,56 @@ def ack_then_stale(addr, name, w, blksize, mode, family=socket.AF_INET, copies=1
         s.close()
 
 
+def early_retransmission(addr, name, w, family=socket.AF_INET):
+    """The server needs a sizeable part of the timeout to send one window (duplicate-packets mode, 1 ms per extra copy).
+    The client withholds the window's ACK and sends one stale ACK half a second after the window's last datagram; kernel
+    receive timestamps give the distance between that last datagram and the next DATA. Returns (gap_s, send_time_s, note)."""
+    import struct
+    s = N._sock(family, timeout=4.0)
+    try:
+        s.setsockopt(socket.SOL_SOCKET, 35, 1)     # SO_TIMESTAMPNS
+        s.sendto(N.enc_req(N.RRQ, name, options=[("windowsize", w), ("blksize", 8), ("timeout", 1)]), addr)
+
+        def rx(timeout):
+            s.settimeout(timeout)
+            try:
+                buf, anc, _, src = s.recvmsg(2048, 256)
+            except socket.timeout:
+                return None, None, None
+            ts = None
+            for lvl, typ, data in anc:
+                if lvl == socket.SOL_SOCKET and typ == 35 and len(data) >= 16:
+                    sec, nsec = struct.unpack("qq", data[:16])
+                    ts = sec + nsec / 1e9
+            return N.dec(buf), ts, src[:2]
+
+        pkt, ts, peer = rx(3.0)
+        if pkt is None or pkt[0] != "OACK":
+            return None, None, f"first reply {pkt and pkt[0]}"
+        s.sendto(N.enc_ack(0), peer)
+        first_ts = last_ts = None
+        seen = 0
+        while True:
+            pkt, ts, src = rx(0.25)          # the first pass ends when nothing arrives for a quarter of a second
+            if pkt is None:
+                break
+            if pkt[0] == "DATA" and ts is not None:
+                first_ts = first_ts or ts
+                last_ts = ts
+                seen += 1
+        if last_ts is None or seen < w:
+            return None, None, f"only {seen} datagrams of the first pass seen"
+        time.sleep(0.25)                      # 0.5 s after the last datagram of the pass
+        s.sendto(N.enc_ack(0), peer)          # stale: the window starts at block 1
+        pkt, ts, src = rx(4.0)
+        s.sendto(N.enc_error(0, b"done"), peer)
+        if pkt is None or pkt[0] != "DATA" or ts is None:
+            return None, last_ts - first_ts, f"no retransmission within 4 s ({pkt and pkt[0]})"
+        return ts - last_ts, last_ts - first_ts, ""
+    finally:
+        s.close()
+
+
 def c08(v, tier):
     ctx = Ctx("C08", tier)
     tftpd = ctx.bins["release"]["tftpd"]
@@ -187,6 +237,24 @@ def c08(v, tier):
                 v.note_inconclusive(f"{cfg}: ack-then-stale download did not start: {note}")
             elif not completed:
                 v.violation("C08/net/stale-ack-stalls", f"{cfg}: download with a stale ACK behind every ACK ({mode}, windowsize {w}) did not complete: {note}", replay)
+        # retransmission only when the negotiated timeout has elapsed since the last transmission, also when sending a window
+        # takes most of that timeout
+        for srv in sorted({p[0] for p in plans if "--duplicate-packets" in p[0].args}, key=lambda x: x.single):
+            evals += 1
+            write(os.path.join(srv.args[srv.args.index("-d") + 1], "slow.bin"), N.keyed_content("c08-slow", 8 * 700 + 3))
+            cfg = f"{'single' if srv.single else 'multi'}-port/duplicate-packets 1"
+            gaps = []
+            for attempt in range(3):
+                gap, sendtime, note = early_retransmission(srv.addr, "slow.bin", 600, family=srv.family)
+                gaps.append((None if gap is None else round(gap, 3), None if sendtime is None else round(sendtime, 3), note))
+                if gap is None or gap >= 0.9:
+                    break
+            info.setdefault("retransmission_after_slow_window", {})[cfg] = gaps
+            if len(gaps) == 3 and all(g[0] is not None and g[0] < 0.9 for g in gaps):
+                v.violation("C08/net/retransmission-before-timeout", f"{cfg}: windowsize 600, timeout 1 s: after a stale ACK the window was sent again only {[g[0] for g in gaps]} s after its previous transmission had ended (sending it took {[g[1] for g in gaps]} s; 3 of 3 attempts)",
+                            {"engine": "net", "config": cfg, "measured": gaps})
+            elif gaps[-1][0] is None:
+                v.note_inconclusive(f"{cfg}: slow-window retransmission could not be measured: {gaps[-1][2]}")
     finally:
         for srv in {p[0] for p in plans}:
             srv.stop()
